@@ -394,8 +394,8 @@ impl TypedScenario for C08E2E {
         match (tier, self.faulty) {
             (Tier::Quick, false) => 3000,
             (Tier::Quick, true) => 1500,
-            (Tier::Thorough, false) => 300_000,
-            (Tier::Thorough, true) => 100_000,
+            (Tier::Thorough, false) => 1_500_000,
+            (Tier::Thorough, true) => 500_000,
         }
     }
     fn generate(&self, seed: u64, _index: usize, tier: Tier) -> Plan {
